@@ -38,12 +38,16 @@ specializations of a parameterized type, as a component; lib/c10_strlit.py: stri
  (j) every job: a `FATAL:` line or an `#error` directive in a generated file never comes with exit status 0;
  (k) the emitted permitted-alphabet checker of every FROM site admits exactly the octets of the literal (c10_util.alphabet_oracle);
  (l) exit status and number of `Cannot compile` diagnostics = CompileFold.exit_status / top_fatals of the extracted model on the
-     emission-unit tree of the module (theorems C10_exit_zero_iff_all_ok, C10_exit_order_independent, ...)."""
+     emission-unit tree of the module (theorems C10_exit_zero_iff_all_ok, C10_exit_order_independent, ...).
+Round 5 (lib/c10_derived.py: a type whose NAME maps onto a C identifier asn1c derives from another type - Foo-PR, Foo-t, Foo-PR-a,
+Foo-a, Foo-constraint, Foo-tags-1, ModA-Foo ... x kinds x one / two / three modules / files x -fcompound-names; coq/Fix/DerivedNames.v):
+ (m) one C translation unit including every emitted header compiles;
+ (n) no global C identifier (tag / ordinary namespace) is defined by the headers of two different types."""
 import sys, os, re, json, time
 sys.path.insert(0, os.path.join(os.path.dirname(os.path.abspath(__file__)), "..", "lib"))
 from vlib import *
 from c10_util import *
-import c10_alias, c10_refs, c10_partial
+import c10_alias, c10_refs, c10_partial, c10_derived
 
 CLAUSES = {1: "translator saw a null table with a non-zero count", 2: "member type index out of range", 3: "tags / all_tags relation",
            4: "PER record of the type", 5: "OER record of the type", 6: "member records (PER/OER/tag_mode/flags)",
@@ -228,6 +232,37 @@ def real_reference_with_range(text):
     return any(re.search(r"(?<![\w-])%s\s*\(\s*(?!WITH\b)" % re.escape(n), t) for n in real)
 
 
+def derived_name_pairs(text):
+    """kinds of derived-name coincidences between two type names of the input: 'PR' (c(U) = c(T)_PR: registered, refused without
+    -fcompound-names), 'prefix' (c(U) = <Module>_<T> with T defined in two modules: registered), 't' (c(U) = c(T)_t and U is a
+    constructed type: `struct T_t` meets the typedef name `T_t`; NOT registered)"""
+    t = strip_comments(text)
+    cid = lambda n: n.replace("-", "_")
+    mods, cur = [], None
+    for line in t.split("\n"):
+        mm = re.match(r"\s*([A-Z][\w-]*)\s*(?:\{[^}]*\}\s*)?DEFINITIONS\b", line)
+        if mm:
+            cur = (mm.group(1), [])
+            mods.append(cur)
+            continue
+        mm = re.match(r"\s*([A-Z][\w-]*)\s*::=\s*(?:\[[^\]]*\]\s*(?:IMPLICIT\s+|EXPLICIT\s+)?)?(\w+)", line)
+        if mm and cur:
+            cur[1].append((mm.group(1), mm.group(2)))
+    names = [(m, n, k) for m, ds in mods for n, k in ds]
+    out = set()
+    for _, u, uk in names:
+        for m2, tn, _k in names:
+            if u == tn:
+                continue
+            if cid(u) == cid(tn) + "_PR":
+                out.add("PR")
+            if cid(u) == cid(tn) + "_t" and uk in ("SEQUENCE", "SET", "CHOICE"):
+                out.add("t")
+            if sum(1 for _m, n, _ in names if n == tn) > 1 and cid(u) == cid(m2) + "_" + cid(tn):
+                out.add("prefix")
+    return out
+
+
 def match_finding(stage, job):
     """-> finding id or None.  Each rule = symptom signature (the site) AND a predicate on (module text, options)."""
     text, opts = job["mod"]["text"], job["opts"]
@@ -238,6 +273,14 @@ def match_finding(stage, job):
             return "C10-of-of-size-assert"
         if job["rc"] == -11 and left_recursive_choice(text):
             return "C11-leftrec-crash"
+    if stage in ("fatal", "build", "cxx", "dup-names", "c-all") and "-fcompound-names" in opts \
+       and "Name clashes encountered even with -fcompound-names flag" in " ".join(job.get("fatal_lines", [])) and derived_name_pairs(text) & {"PR", "prefix"}:
+        # the refusal of c_name_clash is downgraded to a message under -fcompound-names; nothing else may be wrong with the job
+        if stage != "fatal" or all(re.match(r"FATAL: (Name \"[^\"]*\" is generated by|Name clashes encountered even with|\.\.\. \d+ more name clashes)", l) for l in job.get("fatal_lines", [])) \
+           and not job.get("error_directives"):
+            return "C10-name-clash-proceeds-under-compound-names"
+    if stage == "cxx" and re.search(r"conflicting declaration .typedef [\w ]+ \w+_t.", blog) and "t" in derived_name_pairs(text):
+        return "C10-struct-tag-equals-typedef-name-cxx"
     if stage in ("build", "cxx"):
         if re.search(r"asn_DEF_Member_\d+. undeclared", blog) and (has_of_unsigned_integer(text) or of_unsigned_through_param(text)):
             return "C10-of-unsigned-element"
@@ -495,10 +538,10 @@ def main(tier):
                 continue        # parameterized modules mostly need -fcompound-names (set 1); a second set in rotation
             if tier == "quick" and m["origin"] == "grammar-refused" and oi != mi % 4:
                 continue        # refusals happen in the parser / fixer: one option set each
-            if tier != "quick" and m["origin"] in ("partial", "strlit") and ((oi - 16 * mi) % 128) >= 16:
+            if tier != "quick" and m["origin"] in ("partial", "strlit", "derived") and ((oi - 16 * mi) % 128) >= 16:
                 continue        # thorough, round-4 modules (many; their refusals do not depend on most flags): 16 rotating subsets, 6 of them built
             # thorough: build + translator under 16 rotating subsets per module (6 for the region modules of round 2, which are many)
-            full = tier == "quick" or ((oi - 16 * mi) % 128) < (6 if m["origin"] in ("param", "multi", "grammar", "grammar-refused", "refs", "partial", "strlit") else 16)
+            full = tier == "quick" or ((oi - 16 * mi) % 128) < (6 if m["origin"] in ("param", "multi", "grammar", "grammar-refused", "refs", "partial", "strlit", "derived") else 16)
             jobs.append({"mod": m, "opts": opts, "oi": oi, "dir": job_dir(root, m, oi), "asn1c": asn1c, "skel": skel,
                          "only_asn1c": not full, "cleanup": True})
     print("C10: %d jobs" % len(jobs), file=sys.stderr)
@@ -548,6 +591,13 @@ def main(tier):
             report("fatal", "asn1c:%s-but-exit-0" % "+".join(kinds),
                    "asn1c printed a FATAL diagnostic / wrote an #error directive into a generated file, and exited with status 0",
                    {"fatal_lines": j.get("fatal_lines"), "error_directives": j.get("error_directives")})
+        # (n) round 5: a global C identifier defined by the headers of two different types
+        if m.get("derived"):
+            run.count("derived:%s:accepted" % m["derived"].get("suffix", "prefix"))
+        if j.get("dup_names"):
+            run.count("oracle:identifier-defined-by-two-types")
+            report("dup-names", "names:identifier-defined-by-two-types", "asn1c exited 0; the headers it wrote for two different types define the same global C identifier "
+                   "(a name derived from one type name equals a name derived from another)", {"identifiers": j["dup_names"][:8], "derived": m.get("derived")})
         # (k) round 4: the emitted permitted-alphabet checkers against the octets of the literals
         for cfile, fn, mode, prob in j.get("alpha", []):
             run.count("alphabet-site:%s" % mode)
@@ -580,6 +630,12 @@ def main(tier):
             if built or match_finding("cxx", j) != match_finding("build", j) or not match_finding("cxx", j):
                 report("cxx", "build:c++-headers", "the emitted headers are not valid C++ (g++ -fsyntax-only on a file including every emitted .h)",
                        {"cxx_log": j.get("cxx_log", "")[-1200:]})
+        # (m) round 5: every emitted header in ONE C translation unit
+        if j.get("call_rc") not in (None, 0):
+            run.count("c-all-headers-failed")
+            if built or match_finding("c-all", j) != match_finding("build", j) or not match_finding("c-all", j):
+                report("c-all", "build:all-headers-one-unit", "asn1c exited 0 but a C translation unit including every emitted header does not compile (gcc -std=c99 -fsyntax-only)",
+                       {"c_log": j.get("call_log", "")[-1200:], "derived": m.get("derived")})
         if not built:
             continue
         # (c) descriptors
